@@ -52,7 +52,7 @@ def run(fb, rep, tier, cfg):
         "conflict) and the resulting 3 + 4 entry table is compared with the reference shift/reduce table of an operator-precedence "
         "parser; the final drain loop pops operators from the end of the stack. Everything about layout, spans, printing and round "
         "trips in C08 is not decided.")
-    rep.assumptions += ["the built-in precedence table (OpTable::get) and user fixity declarations are data, not checked here"]
+    rep.assumptions += ["user fixity declarations are data; the built-in table is compared with std's declarations of the same operators (E13b)"]
     rep.rule(R, "shift/reduce decision table of the infix re-parser equals the reference table")
     b = fb.body(FN)
     if b is None:
@@ -166,3 +166,84 @@ def run(fb, rep, tier, cfg):
         rep.ok(R, "final drain reduces the remaining operators from the top of the stack (into_iter().rev())")
     else:
         rep.violation(R, "drain-order", "the final drain no longer reduces the operator stack from its top", b.where())
+    e13b(fb, rep)
+
+
+# ---------------------------------------------------------------------------------------------------------------
+# E13b — the built-in operator table (OpTable::get fallback for `#Type op`, `&&`, `||`)
+def builtin_table(fb):
+    """{op: (precedence, 'Left'|'Right')} read from the promoted constant of OpTable::get's OPS array"""
+    out = {}
+    for bid, b in fb.bodies.items():
+        if not (bid.startswith("gluon_parser::infix::OpTable::") and "::OPS" in bid and b.kind == "promoted"):
+            continue
+        fix, meta = {}, {}
+        for i, j, place, rv, line in b.assigns():
+            if rv[0] != "agg" or place[1]:
+                continue
+            head = rv[1]
+            if head[0] == "adt" and head[1] == FIX:
+                fix[place[0]] = head[2]
+            elif head[0] == "adt" and head[1] == OPMETA and len(rv[2]) == 2:
+                k = rv[2][0][1].get("int") if rv[2][0][0] == "k" else None
+                p = op_place(rv[2][1])
+                meta[place[0]] = (k, fix.get(p[0]) if p else None)
+            elif head[0] == "tuple" and len(rv[2]) == 2 and rv[2][0][0] == "k" and "str" in rv[2][0][1]:
+                p = op_place(rv[2][1])
+                if p and p[0] in meta:
+                    out[rv[2][0][1]["str"]] = meta[p[0]]
+    return out
+
+
+def std_declared(repo):
+    """{op: {(precedence, fixity): [file]}} from `#[infix(<fixity>, <n>)]` attributes on operator bindings in std/*.glu"""
+    import glob
+    import os
+    import re
+    pat = re.compile(r"#\[infix\(\s*(left|right)\s*,\s*(\d+)\s*\)\]\s*(?:#\[[^\]]*\]\s*)*(?:let\s+)?\(([^()\s]+)\)")
+    out = {}
+    for f in sorted(glob.glob(os.path.join(repo, "std", "**", "*.glu"), recursive=True)):
+        for m in pat.finditer(open(f, encoding="utf-8").read()):
+            out.setdefault(m.group(3), {}).setdefault((int(m.group(2)), m.group(1).capitalize()), []).append(os.path.relpath(f, repo))
+    return out
+
+
+def e13b(fb, rep):
+    import harness
+    R = "E13b"
+    rep.rule(R, "built-in operator precedences agree with the std declarations of the same operators; || < && < comparisons, both right associative")
+    t = builtin_table(fb)
+    if len(t) < 12:
+        rep.anchor_lost(R, "OpTable::get built-in OPS table (%d rows read)" % len(t))
+        return
+    decl = std_declared(harness.REPO)
+    rep.floor(R, "operators with an #[infix] declaration in std", len(decl), 20)
+    n = 0
+    for op in sorted(t):
+        if op in ("&&", "||"):
+            continue
+        d = decl.get(op)
+        if not d:
+            rep.violation(R, "no-sibling|%s" % op, "built-in operator `%s` has no #[infix] declaration in std to agree with" % op, "parser/src/infix.rs")
+            continue
+        n += 1
+        if set(d) == {t[op]}:
+            rep.ok(R, "`#T%s` %s %d == #[infix] of (%s) in %s" % (op, t[op][1], t[op][0], op, sorted({f for v in d.values() for f in v})[0]))
+        else:
+            rep.violation(R, "builtin-vs-std|%s" % op, "the built-in `#<Type>%s` is %s %s but std declares (%s) as %s: `a #Int%s b` and `a %s b` group differently"
+                          % (op, t[op][1].lower(), t[op][0], op, sorted(d), op, op), "parser/src/infix.rs")
+    rep.floor(R, "built-in operators with a std sibling", n, 10)
+    a, o = t.get("&&"), t.get("||")
+    cmp_ = [t[x][0] for x in ("==", "/=", "<", ">", "<=", ">=") if x in t]
+    if a is None or o is None or not cmp_:
+        rep.anchor_lost(R, "rows for && / || / comparisons")
+        return
+    if o[0] < a[0] < min(cmp_):
+        rep.ok(R, "precedence(||)=%d < precedence(&&)=%d < comparisons=%d" % (o[0], a[0], min(cmp_)))
+    else:
+        rep.violation(R, "bool-operator-order", "precedence(||)=%d, precedence(&&)=%d, comparisons=%d: `a && b || c` must group as `(a && b) || c` and "
+                      "`x < y && p` as `(x < y) && p`" % (o[0], a[0], min(cmp_)), "parser/src/infix.rs")
+    if a[1] == "Right" and o[1] == "Right":
+        rep.ok(R, "&& and || are right associative (short-circuit chains nest to the right)")
+    else:
+        rep.violation(R, "bool-operator-fixity", "&& is %s, || is %s (both must be Right)" % (a[1], o[1]), "parser/src/infix.rs")
